@@ -341,6 +341,3 @@ pub fn run(args: &Args) {
     d.rec.exhaustive = Some(true);
     d.rec.finish(args);
 }
-
-#[allow(dead_code)]
-fn _unused(_: &Interp) {}
